@@ -710,7 +710,7 @@ impl Property for C02 {
         vec!["mtimes of workload and script writes come from the simulator's logical clock (one tick per write)", "race-free layouts: a file is written by at most one target"]
     }
     fn generate(&self, rng: &mut Rng, _case: u64) -> Scenario {
-        gen_history(rng, &HistOpts { io: IoOpts { own_output_inside_input_pct: 12, ..IoOpts::default() }, max_invocations: 5, edit_pct: 85, touch_only: false, vary_entry: false, clean_pct: 5, fail_pct: 8, corrupt_pct: 8, io_fault_pct: 12 })
+        gen_history(rng, &HistOpts { io: IoOpts { own_output_inside_input_pct: 12, cmd_output_pct: 30, multi_project_pct: 55, cmd_pct: 35, ..IoOpts::default() }, max_invocations: 5, edit_pct: 85, touch_only: false, vary_entry: false, clean_pct: 5, fail_pct: 8, corrupt_pct: 8, io_fault_pct: 12 })
     }
     fn evaluate(&self, sc: &Scenario, root: &Path, stats: &mut Stats) -> Option<Violation> {
         let v = eval_history(sc, root, stats, Some(Which::Sound), any_target, None, nontrivial_decision);
